@@ -188,7 +188,7 @@ def run(ctx, out):
                f'{len(bad)} mismatches over {len(items)}, {len(errs)} shard errors')
     for e in errs[:1]:
         out.violation('C16:corr_sem:shard-error', 'shard failed: ' + e[:400], {'correspondence': 'corr_sem', 'error': e[:1500]}, no_input=True)
-    if bad and not any(not v['no_input'] for v in out.violations):
+    if bad and not out.has_unlisted_input():
         out.violation('C16:corr_sem', f'model and pane disagree on comparisons for {items[bad[0]][1]!r}', {'correspondence': 'corr_sem', 'case': repr(items[bad[0]][1])}, no_input=True)
 
 
